@@ -181,3 +181,38 @@ def guards_of(node: ast.AST, stop: ast.AST) -> List[Tuple[ast.AST, bool]]:
             elif branch == "orelse":
                 out.append((comp.test, False))
     return out
+
+
+# ---------------------------------------------------------------------- role-based name resolution
+def bound_names(fn: ast.AST, pred: Callable[[ast.AST], bool]) -> List[str]:
+    """local names X with an assignment `X = V` (also `X, Y = V, W` pairwise) in fn such that pred(V)."""
+    out = []
+    for n in walk_shallow(fn):
+        if isinstance(n, ast.Assign) and len(n.targets) == 1:
+            t = n.targets[0]
+            pairs = []
+            if isinstance(t, ast.Name):
+                pairs = [(t, n.value)]
+            elif isinstance(t, ast.Tuple) and isinstance(n.value, ast.Tuple) and len(t.elts) == len(n.value.elts):
+                pairs = [(a, b) for a, b in zip(t.elts, n.value.elts) if isinstance(a, ast.Name)]
+            for a, v in pairs:
+                try:
+                    if pred(v) and a.id not in out:
+                        out.append(a.id)
+                except Exception:
+                    pass
+    return out
+
+
+def name_bound(fn: ast.AST, pred: Callable[[ast.AST], bool], default: str = None) -> Optional[str]:
+    """the unique local bound to a value satisfying pred (default if none / ambiguous)."""
+    ns = bound_names(fn, pred)
+    return ns[0] if len(ns) == 1 else default
+
+
+def is_call_to(v: ast.AST, *names: str) -> bool:
+    return isinstance(v, ast.Call) and any(_call_matches(v, n) for n in names)
+
+
+def for_target(loop: ast.For) -> str:
+    return unparse(loop.target)
